@@ -110,7 +110,7 @@ class Recorder:
         ts_ = self.study.get_trials(deepcopy=False, states=(TrialState.WAITING,))
         self.log({"e": "peek", "tags": [t.user_attrs.get("tag", 0) for t in ts_]})
 
-    def ask_run_tell(self, w, rng, names=None):
+    def ask_run_tell(self, w, rng, names=None, late_write=False):
         from optuna.exceptions import UpdateFinishedTrialError
 
         try:
@@ -129,6 +129,13 @@ class Recorder:
             self.log({"e": "suggest", "w": w, "n": trial.number, "tag": tag, "name": name, "v": tok(name, v)})
         self.study.tell(trial, 1.0)
         self.log({"e": "tell", "w": w, "n": trial.number})
+        if late_write:
+            # a write after the trial is finished (e.g. logging after tell): refused at its issuer, and nothing else - in
+            # particular no other worker's record that shares a replay batch with it may get lost
+            try:
+                trial.set_user_attr("late", 1)
+            except Exception:  # noqa: UpdateFinishedTrialError, by contract
+                pass
         return trial.number
 
 
@@ -229,7 +236,7 @@ def concurrent_history(kind, seed, workdir, focus=None):
                     queued[0] += 1
                 for _ in range(r.choice([1, 2]) if focus is None else (2 if w == 1 else seed // 2 % 2)):
                     try:
-                        rec.ask_run_tell(w, r, names=["x", "c"])
+                        rec.ask_run_tell(w, r, names=["x", "c"], late_write=r.random() < 0.4)
                     except Exception as e:  # noqa
                         sched.event({"e": "error", "w": w, "err": type(e).__name__ + ":" + str(e)[:100]})
             return body
